@@ -177,6 +177,11 @@ func tokenizeLine(line string) []wordToken {
 	currentWord := strings.Builder{}
 
 	for i, ch := range line {
+		// A line comment ends the code on this line: words inside it are not keywords
+		if !inString && ch == '-' && strings.HasPrefix(line[i:], "--") {
+			break
+		}
+
 		// Handle string literals - skip keywords inside strings
 		if !inString && (ch == '\'' || ch == '"') {
 			inString = true
@@ -263,8 +268,18 @@ func (r *KeywordCaseRule) fixLine(line string) string {
 	wordStart := -1
 	currentWord := strings.Builder{}
 
-	runes := []rune(line)
-	for i, ch := range runes {
+	for i, ch := range line {
+		// A line comment ends the code on this line: its text is copied unchanged
+		if !inString && ch == '-' && strings.HasPrefix(line[i:], "--") {
+			if wordStart >= 0 {
+				result.WriteString(r.convertKeyword(currentWord.String()))
+				currentWord.Reset()
+				wordStart = -1
+			}
+			result.WriteString(line[i:])
+			break
+		}
+
 		// Handle string literals - don't modify keywords inside strings
 		if !inString && (ch == '\'' || ch == '"') {
 			// Flush current word first
